@@ -172,7 +172,14 @@ def _run(ck, P, cfg):
     for fname in ("msg_queue_extract", "msg_queue_time_peek"):
         f = P.fn(fname)
         calls = list(f.calls("msg_queue_insert_queued"))
-        uses = [n for n in f.walk() if n.k == "DeclRefExpr" and n.name == "mqp"]
+        def _unevaluated(n):
+            q = n.parent
+            while q is not None:
+                if q.k == "UnaryExprOrTypeTraitExpr":
+                    return True
+                q = q.parent
+            return False
+        uses = [n for n in f.walk() if n.k == "DeclRefExpr" and n.name == "mqp" and not _unevaluated(n)]
         inst = "drain-first@%s" % fname
         if not calls:
             ck.violated("C15.4", inst, f.where, "%s reads the heap without first draining the inter-thread buffer: messages already pushed by other threads are ignored" % fname, cfg)
